@@ -1,3 +1,174 @@
+(* C09 — property theorems only.  Each is closed by [exact <lemma>] and followed by Print Assumptions.
+   Notation:  wf c      = every stored cell of c holds a non-zero value (keys inside the size by construction)
+              Rv c v    = wf c and the dense image of c equals v pointwise
+              refines r d = both raise the same class of exception, or r is a sparse vector with Rv r d
+              okrel R x y = whenever y (NumPy) returns a value, x (sparse) returns a related value
+              run false = the history semantics of the repaired source (pending_fixes/C09_1 .. C09_7) *)
 From V Require Import Common.NumFacts C09.Model C09.Dense C09.Proofs.
-Theorem C09_placeholder : True. Proof. exact placeholder_true. Qed.
-Print Assumptions C09_placeholder.
+
+(* ---------- representation invariant ---------- *)
+(* construction establishes it and represents the input *)
+Theorem C09_construction : forall l ro m,
+  owf (mkV l ro) /\ owf (mkA m) /\ Rv (of_dense l) l.
+Proof. intros. split; [apply mk_wf|split; [apply mkA_wf|apply Rv_of_dense]]. Qed.
+Print Assumptions C09_construction.
+
+(* every kernel keeps it *)
+Theorem C09_kernels_keep_invariant : forall o a b k l r,
+  wf a -> wf b ->
+  (k_sparse false o a b = Ok r -> wf r) /\ (ik_sparse false o true a a = Ok r -> wf r) /\
+  (k_scalar o a k = Ok r -> wf r) /\ (k_array o a l = Ok r -> wf r) /\
+  (rtruediv_scalar a k = Ok r -> wf r) /\ wf (neg_cells a) /\ wf (abs_cells a).
+Proof. exact kernels_keep_invariant. Qed.
+Print Assumptions C09_kernels_keep_invariant.
+
+(* after ANY sequence of modelled operations (all object kinds, all operators, indexing, reductions)
+   the stored entries are exactly the non-zero elements *)
+Theorem C09_history_invariant : forall ops s, store_wf s -> store_wf (fst (run false s ops)).
+Proof. exact run_wf. Qed.
+Print Assumptions C09_history_invariant.
+
+(* ---------- refinement of NumPy: + - * ---------- *)
+Theorem C09_arith_sparse_refines : forall o a a' b b', o <> Div -> Rv a a' -> Rv b b' ->
+  (length a = 1%nat -> b <> []) ->
+  refines (k_sparse false o a b) (np_arith o a' b').
+Proof. exact arith_sparse_refines. Qed.
+Print Assumptions C09_arith_sparse_refines.
+Theorem C09_arith_scalar_refines : forall o a a' k k', o <> Div -> Rv a a' -> k == k' ->
+  refines (k_scalar o a k) (np_arith o a' [k']).
+Proof. exact arith_scalar_refines. Qed.
+Print Assumptions C09_arith_scalar_refines.
+Theorem C09_arith_array_refines : forall o a a' b b', o <> Div -> Rv a a' -> Forall2 Qeq b b' ->
+  b <> [] -> length b <> 1%nat ->
+  refines (k_array o a b) (np_arith o a' b').
+Proof. exact arith_array_refines. Qed.
+Print Assumptions C09_arith_array_refines.
+Theorem C09_neg_abs_refine : forall a a', Rv a a' -> Rv (neg_cells a) (np_neg a') /\ Rv (abs_cells a) (np_abs a').
+Proof. intros. split; [now apply neg_refines | now apply abs_refines]. Qed.
+Print Assumptions C09_neg_abs_refine.
+
+(* ---------- division: partial ---------- *)
+(* full statement, refuted because 0/0 is 0 in the sparse code and an error for NumPy under seterr(invalid='raise') *)
+Theorem C09_div_refuted : ~ div_statement.
+Proof. exact div_refuted. Qed.
+Print Assumptions C09_div_refuted.
+(* what holds: whenever NumPy returns a quotient (no zero in the divisor), the sparse kernels return the same *)
+Theorem C09_div_partial : forall a a' b b' k k' l l',
+  Rv a a' -> Rv b b' -> k == k' -> Forall2 Qeq l l' ->
+  (length a = length b -> okrel Rv (truediv_sparse a b) (np_arith Div a' b')) /\
+  (length a <> 1%nat -> okrel Rv (truediv_scalar a k) (np_arith Div a' [k'])) /\
+  (length a = length l -> okrel Rv (truediv_array a l) (np_arith Div a' l')).
+Proof.
+  intros. repeat split; intros; eauto using truediv_sparse_same_ok, truediv_scalar_ok, truediv_array_same_ok.
+Qed.
+Print Assumptions C09_div_partial.
+(* the kernels before pending_fixes/C09_1 and C09_2: an entry divided by zero was dropped; a -= a raised *)
+Theorem C09_legacy_div_drops_entry :
+  truediv_sparse_legacy [Some 1; None; Some 2] [None; Some 1; Some 2] = Ok [None; None; Some (2 # 2)] /\
+  np_arith Div [1; 0; 2] [0; 1; 2] = Err EZeroDiv /\
+  truediv_sparse [Some 1; None; Some 2] [None; Some 1; Some 2] = Err EZeroDiv.
+Proof. exact legacy_div_drops_entry. Qed.
+Print Assumptions C09_legacy_div_drops_entry.
+Theorem C09_legacy_isub_self_raises :
+  isub_self [Some 1; None; Some 2] = Err ERuntime /\ isub_self_fixed [Some 1; None; Some 2] = Ok [None; None; None].
+Proof. exact legacy_isub_self_raises. Qed.
+Print Assumptions C09_legacy_isub_self_raises.
+
+(* ---------- in-place forms ---------- *)
+Theorem C09_inplace_eq_binary : forall o a b,
+  ik_sparse false o false a b = k_sparse false o a b /\ (o <> Div -> ik_sparse false o true a a = k_sparse false o a a).
+Proof. intros. split; [apply inplace_eq_binary | apply inplace_self_eq_binary]. Qed.
+Print Assumptions C09_inplace_eq_binary.
+Theorem C09_inplace_refines : forall o a a' b b', o <> Div -> Rv a a' -> Rv b b' ->
+  length a = length b \/ length b = 1%nat ->
+  refines (ik_sparse false o false a b) (np_iarith o a' b').
+Proof. exact iarith_sparse_refines. Qed.
+Print Assumptions C09_inplace_refines.
+(* without the shape hypothesis: refuted, a length-1 target is resized where NumPy raises *)
+Theorem C09_inplace_refuted : ~ inplace_statement.
+Proof. exact inplace_refuted. Qed.
+Print Assumptions C09_inplace_refuted.
+
+(* in-place operations change only the target; everything else changes nothing *)
+Theorem C09_frame : forall lg s o k, (k < length s)%nat -> target o <> Some k ->
+  nth_error (fst (xstep lg s o)) k = nth_error s k.
+Proof. exact xstep_frame. Qed.
+Print Assumptions C09_frame.
+Theorem C09_history_frame : forall lg ops s k, (k < length s)%nat -> (forall o, In o ops -> target o <> Some k) ->
+  nth_error (fst (run lg s ops)) k = nth_error s k.
+Proof. exact run_frame. Qed.
+Print Assumptions C09_history_frame.
+(* rejected operations leave every object as it was *)
+Theorem C09_rejected_unchanged : forall lg s o e, (forall i ax v, o <> XASet i ax v) -> lg = false ->
+  snd (xstep lg s o) = RErr e -> fst (xstep lg s o) = s.
+Proof. exact rejected_unchanged. Qed.
+Print Assumptions C09_rejected_unchanged.
+
+(* ---------- read-only ---------- *)
+Theorem C09_readonly_vector_rejects : forall lg s i c o,
+  nth_error s i = Some (OV c true) ->
+  (exists b a p, o = XOp (OIBin b i a) /\ resolve s a = Ok p) \/ o = XOp (OClear i) \/
+  (exists ix a p, o = XOp (OSet i ix a) /\ resolve s a = Ok p) ->
+  xstep lg s o = (s, RErr EValue).
+Proof. exact readonly_vector_rejects. Qed.
+Print Assumptions C09_readonly_vector_rejects.
+Theorem C09_readonly_array_refuted : ~ readonly_array_statement.
+Proof. exact readonly_array_refuted. Qed.
+Print Assumptions C09_readonly_array_refuted.
+
+(* ---------- every history of fragment operations refines the NumPy history on the dense images ---------- *)
+Theorem C09_history_refines : forall ops s d, sim s d -> frun s ops ->
+  sim (fst (run false s ops)) (np_run d ops).
+Proof. exact history_refines. Qed.
+Print Assumptions C09_history_refines.
+Theorem C09_history_dense : forall ops s, store_wf s -> frun s ops ->
+  sim (fst (run false s ops)) (np_run (abs_store s) ops).
+Proof. exact history_dense. Qed.
+Print Assumptions C09_history_dense.
+
+(* ---------- further statements the code does not satisfy (known findings, witnesses replayed every run) ---------- *)
+Theorem C09_broadcast_refuted : ~ broadcast_statement.
+Proof. exact broadcast_refuted. Qed.
+Print Assumptions C09_broadcast_refuted.
+Theorem C09_setitem_index_refuted : ~ setitem_index_statement.
+Proof. exact setitem_index_refuted. Qed.
+Print Assumptions C09_setitem_index_refuted.
+Theorem C09_setitem_shape_refuted : ~ setitem_shape_statement.
+Proof. exact setitem_shape_refuted. Qed.
+Print Assumptions C09_setitem_shape_refuted.
+Theorem C09_logical_div_refuted : ~ logical_div_statement.
+Proof. exact logical_div_refuted. Qed.
+Print Assumptions C09_logical_div_refuted.
+Theorem C09_array_rows_refuted : ~ array_rows_statement.
+Proof. exact array_rows_refuted. Qed.
+Print Assumptions C09_array_rows_refuted.
+Theorem C09_mask_rows_refuted : ~ mask_rows_statement.
+Proof. exact mask_rows_refuted. Qed.
+Print Assumptions C09_mask_rows_refuted.
+
+(* ---------- non-vacuity ---------- *)
+Definition exS : store := [mkV [1; 0; 2] false; mkV [0; 1; -2] false; mkV [1 # 2] false; mkA [[1; 0; 0]; [0; 0; 3]]].
+Example C09_ex_store_wf : store_wf exS.
+Proof. repeat constructor; cbn; try exact I; intro K; vm_compute in K; discriminate K. Qed.
+Example C09_ex_refines : Rv (of_dense [1; 0; 2]) [1; 0; 2] /\ Rv (of_dense [0; 1; -2]) [0; 1; -2] /\
+  refines (k_sparse false Add (of_dense [1; 0; 2]) (of_dense [0; 1; -2])) (np_arith Add [1; 0; 2] [0; 1; -2]).
+Proof.
+  split; [apply Rv_of_dense|split; [apply Rv_of_dense|]].
+  apply arith_sparse_refines; try apply Rv_of_dense; try discriminate.
+Qed.
+(* a history inside the fragment: a + b ; a -= a ; b *= 2 ; c += a (c has length 1: rejected on both sides) ; -b *)
+Definition exOps : list xop :=
+  [XOp (OBin (BA Add) 0 (AObj 1)); XOp (OIBin (BA Sub) 0 (AObj 0)); XOp (OIBin (BA Mul) 1 (AScal 2));
+   XOp (OBin (BA Mul) 2 (AObj 1)); XOp (ONeg 1); XOp (OClear 0)].
+Example C09_ex_frun : frun exS exOps.
+Proof.
+  unfold exOps.
+  repeat (first [ apply frun_nil
+                | eapply frun_cons;
+                  [ first [ eapply F_bin; [discriminate | vm_compute; reflexivity | cbn; try exact I; repeat eexists; try (vm_compute; reflexivity); try discriminate]
+                          | eapply F_ibin; [discriminate | vm_compute; reflexivity | cbn; try exact I; repeat eexists; try (vm_compute; reflexivity); try discriminate
+                                           | intros p Hp; vm_compute in Hp; inversion Hp; subst; cbn; auto]
+                          | eapply F_neg; vm_compute; reflexivity
+                          | eapply F_clear; vm_compute; reflexivity ]
+                  | vm_compute fst ] ]).
+Qed.
